@@ -144,6 +144,8 @@ Section FieldFacts.
       let '(X1, Y1, Z1) := P in W_Double K a b X1 Y1 Z1.
     Definition w_neg (P : F * F * F) : F * F * F :=
       let '(X1, Y1, Z1) := P in W_Neg K X1 Y1 Z1.
+    Definition w_sub (P Q : F * F * F) : F * F * F :=
+      let '(X1, Y1, Z1) := P in let '(X2, Y2, Z2) := Q in W_Sub K a b X1 Y1 Z1 X2 Y2 Z2.
     Definition w_equal (P Q : F * F * F) : bool :=
       let '(X1, Y1, Z1) := P in let '(X2, Y2, Z2) := Q in W_Equal K X2 Y2 Z2 X1 Y1 Z1.
 
@@ -224,6 +226,15 @@ Section FieldFacts.
         - nsatz23 two_nz three_nz.
       Qed.
     End CharNot23.
+
+    Lemma neg_agrees : forall P, w_to_affine (w_neg P) = waff_neg K (w_to_affine P).
+    Proof.
+      intros [[X Y] Z]. unfold w_neg. cbv [W_Neg]. rewrite !w_to_affine_eq.
+      destruct (fis0 K Z); [reflexivity|]. cbn [waff_neg]. f_equal. f_equal. ring.
+    Qed.
+
+    Lemma neg_preserves_curve : forall P, proj_on P -> proj_on (w_neg P).
+    Proof. intros [[X Y] Z]. unfold proj_on, w_neg. cbv [W_Neg]. intro H. nsatzT. Qed.
 
     (* ---- identity operands: the program scales the other operand by Y1^2*Y2 ------------------- *)
     Lemma add_identity_left : forall Y1 X2 Y2 Z2 : F,
@@ -483,18 +494,26 @@ Section FieldFacts.
             rewrite w_to_affine_eq. apply fis0_neq in HZ3. rewrite HZ3. apply fis0_neq in HZ3.
             cbv zeta. rewrite fdiv_mul. rewrite HX, HY. f_equal. f_equal; field; repeat split; assumption.
       Qed.
+      (* Sub = Add after Neg (as regenerated: W_Sub calls W_Neg then W_Add) *)
+      Theorem w_sub_correct : no_two_torsion -> forall P Q, valid P -> valid Q ->
+        valid (w_sub P Q) /\
+        w_to_affine (w_sub P Q) = waff_sub K a (w_to_affine P) (w_to_affine Q).
+      Proof.
+        intros H2 P [[X2 Y2] Z2] V1 V2.
+        assert (VN : valid (w_neg (X2, Y2, Z2))).
+        { split.
+          - apply neg_preserves_curve. apply V2.
+          - unfold w_neg. cbv [W_Neg]. intro H. injection H as HX HY HZ. apply (proj2 V2).
+            assert (Y2 = 0) by (transitivity (- - Y2); [ring | rewrite HY; ring]).
+            subst. reflexivity. }
+        replace (w_sub P (X2, Y2, Z2)) with (w_add P (w_neg (X2, Y2, Z2))).
+        - destruct (w_add_correct H2 P _ V1 VN) as [HV HA]. split; [exact HV|].
+          rewrite HA, neg_agrees. reflexivity.
+        - destruct P as [[X1 Y1] Z1]. reflexivity.
+      Qed.
     End CharNot23'.
 
     (* ---- Neg, Equal, IsZero, SetAffine, ToAffine, SetZero ------------------------------------------ *)
-    Lemma neg_agrees : forall P, w_to_affine (w_neg P) = waff_neg K (w_to_affine P).
-    Proof.
-      intros [[X Y] Z]. unfold w_neg. cbv [W_Neg]. rewrite !w_to_affine_eq.
-      destruct (fis0 K Z); [reflexivity|]. cbn [waff_neg]. f_equal. f_equal. ring.
-    Qed.
-
-    Lemma neg_preserves_curve : forall P, proj_on P -> proj_on (w_neg P).
-    Proof. intros [[X Y] Z]. unfold proj_on, w_neg. cbv [W_Neg]. intro H. nsatzT. Qed.
-
     Lemma is_zero_spec : forall Z, W_IsZero K Z = true <-> Z = 0.
     Proof. intro Z. cbv [W_IsZero]. apply fis0_eq. Qed.
 
@@ -582,6 +601,8 @@ Section FieldFacts.
     Definition e_double (P : pt) : pt :=
       let '(X1, Y1, T1, Z1) := P in E_Double K a X1 Y1 T1 Z1.
     Definition e_neg (P : pt) : pt := let '(X1, Y1, T1, Z1) := P in E_Neg K X1 Y1 T1 Z1.
+    Definition e_sub (P Q : pt) : pt :=
+      let '(X1, Y1, T1, Z1) := P in let '(X2, Y2, T2, Z2) := Q in E_Sub K a d X1 Y1 T1 Z1 X2 Y2 T2 Z2.
     Definition e_equal (P Q : pt) : bool :=
       let '(X1, Y1, T1, Z1) := P in let '(X2, Y2, T2, Z2) := Q in E_Equal K X2 Y2 T2 Z2 X1 Y1 Z1.
     Definition e_is_zero (P : pt) : bool := let '(X1, Y1, T1, Z1) := P in E_IsZero K X1 Y1 Z1.
@@ -733,6 +754,28 @@ Section FieldFacts.
         split; [split; [exact Hon | exact HZ3]|].
         rewrite e_to_affine_eq by exact HZ3. unfold eaff_double. cbn [eaff_add]. fold t. rewrite !fdiv_mul.
         f_equal; field; repeat split; assumption.
+      Qed.
+      Lemma ed_neg_valid : forall P, e_valid P -> e_valid (e_neg P).
+      Proof.
+        intros [[[X Y] T] Z] [[H1 H2'] HZ]. unfold e_valid, e_proj_on, e_neg in *. cbv [E_Neg]. cbn [snd] in *.
+        split; [split; nsatzT | exact HZ].
+      Qed.
+
+      Lemma ed_neg_agrees' : forall P, snd P <> 0 -> e_to_affine (e_neg P) = eaff_neg K (e_to_affine P).
+      Proof.
+        intros [[[X Y] T] Z] HZ. cbn [snd] in HZ. unfold e_neg. cbv [E_Neg].
+        rewrite !e_to_affine_eq by exact HZ. cbn [eaff_neg]. f_equal. ring.
+      Qed.
+
+      Theorem e_sub_correct : forall P Q, e_valid P -> e_valid Q ->
+        e_valid (e_sub P Q) /\ e_to_affine (e_sub P Q) = eaff_sub K a d (e_to_affine P) (e_to_affine Q).
+      Proof.
+        intros P [[[X2 Y2] T2] Z2] V1 V2.
+        pose proof (ed_neg_valid _ V2) as VN.
+        replace (e_sub P (X2, Y2, T2, Z2)) with (e_add P (e_neg (X2, Y2, T2, Z2))).
+        - destruct (e_add_correct P _ V1 VN) as [HV HA]. split; [exact HV|].
+          rewrite HA, ed_neg_agrees' by (apply V2). reflexivity.
+        - destruct P as [[[X1 Y1] T1] Z1]. reflexivity.
       Qed.
     End Complete.
 
